@@ -55,6 +55,15 @@ Definition clause_text (c : clause) : option str :=
   | CGroup _ _ => None
   end.
 
+(* GetJoinValidErrStr(obj, field, echo, others...) as a whole, separator included (the clauses above are the calls with
+   one further argument); Proofs/GoMsgProofs.v derives it from the source text *)
+Definition join_valid_err (obj field echo : str) (others : list str) : str :=
+  quoted_prefix (valid_path obj field) ++ s2b "input """ ++ echo ++ [DQ] ++
+  match others with
+  | [] => ErrEndFlag
+  | o0 :: _ => s2b ", " ++ (if has_label o0 then [] else ExplainEn ++ [32%N]) ++ join [32%N] others ++ ErrEndFlag
+  end.
+
 (* echoes that come out of fmt's %v (slices, maps, structs, pointers) are not predicted *)
 Definition echo_filter (e : str) : str :=
   match e with
